@@ -51,6 +51,7 @@ type Access struct {
 	Stack []string
 	IByte int // >=0: classified as instruction byte i of the fetched instruction
 	Seq   int
+	Path  map[string]bool // undecided branch outcomes in force over the whole call stack
 }
 
 type CellResult struct {
@@ -298,7 +299,7 @@ func (m *CPUModel) RunFn(cell CPUCell, entry *ssa.Function, onRender func(Render
 	}
 	ip.Hooks.SlotIsNil = func(s *absint.Slot) absint.Tri { return absint.TriF } // hypothesis: whole bus mapped
 	ip.Hooks.SlotCall = func(ip *absint.Interp, st *absint.State, ev *absint.Event) absint.Val {
-		acc := Access{Fn: ev.Fn, Pos: ev.Pos, Stack: ev.Stack, Index: ev.Slot.Index, IByte: -1, Seq: len(res.Accesses)}
+		acc := Access{Fn: ev.Fn, Pos: ev.Pos, Stack: ev.Stack, Index: ev.Slot.Index, IByte: -1, Seq: len(res.Accesses), Path: ip.PathGuards(st)}
 		if len(ev.Args) >= 1 {
 			acc.Addr, _ = ev.Args[0].(*absint.Int)
 		}
